@@ -110,6 +110,19 @@ def emit_ghosts(handlers):
     return "\n".join(lines)
 
 
+CHUNK = 8
+
+
+def chunk_of(specs):
+    """Harness name -> chunk module name.  Each chunk is a feature-gated module so that one cargo-kani
+    invocation only parses the stub attribute lists (about 230 per harness) of a handful of harnesses."""
+    import zlib
+
+    nbuckets = max(1, len(specs) // CHUNK)
+    nbuckets = 1 << (nbuckets.bit_length())  # power of two: stable while the registry grows a little
+    return {s["name"]: f"gen_k{zlib.crc32(s['name'].encode()) % nbuckets:03d}" for s in specs}
+
+
 def emit_proofs(handlers, specs):
     """specs: list of dict(name, body, keep, stubs, unwind)"""
     out = []
@@ -183,7 +196,7 @@ def generate(specs, repo=REPO):
     _ensure_symlink(os.path.join(VERIF, "harness"), os.path.join(SRC, "harness"))
     wanted.update({"harness", "lib.rs", "harness_gen.rs", "replay_main.rs"})
     for e in os.listdir(SRC):
-        if e not in wanted:
+        if e not in wanted and not e.startswith("gen_k"):
             pth = os.path.join(SRC, e)
             if os.path.islink(pth) or os.path.isfile(pth):
                 os.unlink(pth)
@@ -200,6 +213,10 @@ def generate(specs, repo=REPO):
         lib.append(f"pub mod {m};")
     lib.append("#[macro_use]\npub mod harness;")
     lib.append("pub mod harness_gen;")
+    ch = chunk_of(specs)
+    chunks = sorted(set(ch.values()))
+    for c in chunks:
+        lib.append(f'#[cfg(feature = "{c}")] pub mod {c};')
     _write_if_changed(os.path.join(SRC, "lib.rs"), "\n".join(lib) + "\n")
 
     listed_open = {f["id"] for f in load_known_findings() if f.get("status") == "open"}
@@ -212,7 +229,16 @@ def generate(specs, repo=REPO):
     g.append("}")
     g.append(emit_ghosts(handlers))
     g.append("")
-    g.append(emit_proofs(handlers, specs))
     g.append(emit_registry(specs))
     _write_if_changed(os.path.join(SRC, "harness_gen.rs"), "\n".join(g) + "\n")
+    for c in chunks:
+        sub = [sp for sp in specs if ch[sp["name"]] == c]
+        body = ["// GENERATED by vlib/gen.py -- do not edit", "use crate::harness::*;", "", emit_proofs(handlers, sub)]
+        _write_if_changed(os.path.join(SRC, c + ".rs"), "\n".join(body) + "\n")
+    for e in os.listdir(SRC):
+        if e.startswith("gen_k") and e[:-3] not in chunks:
+            os.unlink(os.path.join(SRC, e))
+    cargo = open(os.path.join(VERIF, "kani", "Cargo.toml.in")).read()
+    cargo += "\n[features]\n" + "".join(f"{c} = []\n" for c in chunks)
+    _write_if_changed(os.path.join(KANI, "Cargo.toml"), cargo)
     return handlers
